@@ -12,6 +12,7 @@ c (added)  the bracketed solver returns only at an exact zero or when the bracke
 e (added)  L4/L5: J*Hess(H2) equals the linearised field at the point entry by entry; the frequency selection code is interpreted
            on the exact spectrum at the smallest catalogue ratio and at Earth-Moon (tolerances below the frequency gaps)
 f-load / f-facade (round 4)  in-place loaders adopt the loaded object whole or rebuild the services (C20.h re-filed); facade -> service argument binding (rules/common.py)
+e-options (round 5)  the linear-stability engine hands the options' band delta / tol and the system type to the backend (C12.b re-filed);  e: ROUTH_CRITICAL_MU is the root of 27 mu (1 - mu) = 1
 """
 from __future__ import annotations
 
@@ -190,6 +191,10 @@ def run(tier):
     # a system loaded in place answers with the points AND the equations of the loaded mass ratio (C20.h's in-place loader rule re-filed)
     from . import c20 as _c20
     _c20._h_inplace_loaders(Relabel(chk, {"C20.h": "C04.f-load"}))
+    # the exponents / frequencies a point reports are classified with the band of ITS options: the linear-stability engine hands delta / tol on (C12.b re-filed)
+    from . import c12 as _c12
+    _c12._b_engine_invoke(Relabel(chk, {"C12.b": "C04.e-options"}), rule="C12.b")
+    _e_routh_constant(chk)
     return chk
 
 
@@ -745,3 +750,19 @@ def _normal_form(chk):
     chk.count("groebner reductions", 36 + len(P.terms()))
     # scale factor formula is what makes the above hold: already used as relations s1^2, s2^2 from _compute_scale_factor
     chk.ok("C04.f", f"{LIB}::_CollinearDynamicsService._compute_scale_factor", sample=f"s1^2 = {sp.factor(s1sq)}, s2^2 = {sp.factor(s2sq)}")
+
+
+def _e_routh_constant(chk):
+    """The mass ratio up to which the library says L4/L5 are linearly stable is Routh's: the root of 27 mu (1 - mu) = 1 in (0, 1/2) - the value at which
+    the two planar frequencies of the linearisation the library itself uses (characteristic polynomial w^4 - w^2 + 27/4 mu (1 - mu)) merge."""
+    TRI = "hiten.system.libration.triangular"
+    mod, cls = ri.find_def(TRI, "TriangularPoint")
+    ip = Interp()
+    try:
+        c = S(ip.getattr(ClassRef(mod, cls), "ROUTH_CRITICAL_MU"))
+    except OutsideFragment as exc:
+        raise AnalysisError(f"anchor: TriangularPoint.ROUTH_CRITICAL_MU not evaluable: {exc}")
+    ok = sp.simplify(27 * c * (1 - c) - 1) == 0 and bool(0 < c) and bool(c < sp.Rational(1, 2))
+    chk.check(ok, "C04.e", f"{TRI}::TriangularPoint.ROUTH_CRITICAL_MU",
+              f"ROUTH_CRITICAL_MU = {c} = {sp.N(c, 8)}: 27 mu (1 - mu) = {sp.N(27 * c * (1 - c), 8)} there, not 1 (Routh's value is (1 - sqrt(23/27))/2 = 0.0385209): the stability "
+              f"statement the library makes about L4/L5 is wrong for every mass ratio between the two (Earth-Moon included)", sample="27 c (1 - c) == 1, 0 < c < 1/2")
